@@ -233,12 +233,16 @@ func trackCase(c *vlib.Ctx, i int, r *vlib.Rand) {
 			idx := fm.find(kk[r.Intn(len(kk))])
 			fm.Items[idx].Val = ""
 			fm.Items[idx].Text = refEncodeKey(fm.Items[idx].Key) + []string{"=", " = ", "=  "}[r.Intn(3)]
-		case x < 11 && clean && e < nEdits && lastReloadTime.UnixNano() != 0:
+		case x < 11 && clean && e < nEdits && lastReloadTime.UnixNano() != 0 && r.Chance(1, 2):
 			// (not after a version with the epoch as modification time was loaded: golib's
 			// marker for "file missing" is that very number, see the known finding
 			// epoch-mtime-after-file-missing — the removal would go unnoticed and the rest of
 			// the history could not be labelled)
 			op = "remove-file-then-recreate"
+		case x < 11 && clean && lastReloadTime.UnixNano() != 0:
+			// the file is moved away, a poll finds it missing, and the SAME file (same content,
+			// same modification time, same inode) is moved back: its keys must be visible again
+			op = "move-away-poll-move-back"
 		default:
 			op = "rewrite"
 			nf := &fileModel{}
@@ -262,6 +266,28 @@ func trackCase(c *vlib.Ctx, i int, r *vlib.Rand) {
 		c.Count("edits", 1)
 		content = fm.text()
 		setObsKeys(fm.keys())
+		movedBack := false
+		var diskTime time.Time
+		if op == "move-away-poll-move-back" {
+			if st, err := os.Stat(path); err == nil && st.ModTime().UnixNano() != 0 && os.Rename(path, path+".aside") == nil {
+				diskTime = st.ModTime()
+				for n := r.Range(1, 3); n > 0; n-- {
+					conf.VerifReloadNow() // one or more polls while the file is away
+				}
+				if err := os.Rename(path+".aside", path); err != nil {
+					panic(err)
+				}
+				movedBack = true
+				mapReset = true
+				loadedEver = map[string]string{}
+				lastReloadContent = ""
+				secOfFirst, contentOfFirst = -1, ""
+				c.Count("reload_points_file_missing", 1)
+				c.Count("files_moved_away_and_back_unmodified", 1)
+			} else {
+				op = "none"
+			}
+		}
 		if op == "remove-file-then-recreate" {
 			os.Remove(path)
 			conf.VerifReloadNow() // a poll while the file is gone
@@ -307,7 +333,11 @@ func trackCase(c *vlib.Ctx, i int, r *vlib.Rand) {
 				method = emInPlace
 			}
 		}
-		placeFile(path, content, times[e], method)
+		if movedBack {
+			times[e], method = diskTime, "same-file-moved-back"
+		} else {
+			placeFile(path, content, times[e], method)
+		}
 		c.Count("edits_"+method, 1)
 		doReload := final || r.Chance(1, 2) || e == futureEdit || (tl == tlEqual && e == nEdits-1)
 		// how this edit's time relates to what the previous poll saw (label of a finding only)
